@@ -214,6 +214,109 @@ def install_sim_threads():
     SIM_THREADS["installed"] = True
 
 
+# --------------------------------------------------------------------------------------
+# process-environment seam: wall clock, process id, directory listing order
+#
+# Nothing in the shipped code reads them to make a decision.  A change that does ("seed from the clock when none is
+# given", "temp file named after the pid", "take the first file glob returns") makes the output depend on when and
+# where the process ran.  Inside a SimEnv these are the simulator's: two launches with different environment seeds see
+# different clocks, pids and listing orders, and one seed is one exactly repeatable environment.
+
+class SimEnv:
+    def __init__(self, seed: int):
+        self.rnd = random.Random(h64("process-env", seed))
+        self.reads = {}
+        self._saved = []
+
+    def _count(self, what):
+        self.reads[what] = self.reads.get(what, 0) + 1
+
+    def _patch(self, obj, name, new):
+        self._saved.append((obj, name, getattr(obj, name)))
+        setattr(obj, name, new)
+
+    def __enter__(self):
+        import datetime as _dt
+        import glob as _glob
+        import time as _time
+
+        env = self
+        t0 = 1.5e9 + self.rnd.randrange(2 * 10**8) + self.rnd.random()
+        tick = [0]
+
+        def now():
+            tick[0] += 1
+            return t0 + tick[0] * 0.0137
+
+        def clock(name, scale, as_int):
+            def f():
+                env._count("clock")
+                v = now() * scale
+                return int(v) if as_int else v
+            f.__name__ = name
+            return f
+
+        for name, scale, as_int in (("time", 1, False), ("time_ns", 10**9, True), ("monotonic", 1, False),
+                                    ("monotonic_ns", 10**9, True), ("perf_counter", 1, False), ("perf_counter_ns", 10**9, True)):
+            self._patch(_time, name, clock(name, scale, as_int))
+        real_dt = _dt.datetime
+
+        class SimDateTime(real_dt):
+            @classmethod
+            def now(cls, tz=None):
+                env._count("clock")
+                return real_dt.fromtimestamp(now(), tz)
+
+            @classmethod
+            def utcnow(cls):
+                env._count("clock")
+                return real_dt.utcfromtimestamp(now())
+
+            @classmethod
+            def today(cls):
+                env._count("clock")
+                return real_dt.fromtimestamp(now())
+
+        self._patch(_dt, "datetime", SimDateTime)
+        pid = 2000 + self.rnd.randrange(30000)
+
+        def getpid():
+            env._count("pid")
+            return pid
+
+        self._patch(os, "getpid", getpid)
+        real_listdir, real_glob, real_iglob = os.listdir, _glob.glob, _glob.iglob
+        order = random.Random(self.rnd.randrange(2**62))
+
+        def shuffled(xs):
+            xs = sorted(xs)
+            order.shuffle(xs)
+            return xs
+
+        def listdir(path="."):
+            env._count("listing")
+            return shuffled(real_listdir(path))
+
+        def glob_(*a, **k):
+            env._count("listing")
+            return shuffled(real_glob(*a, **k))
+
+        def iglob_(*a, **k):
+            env._count("listing")
+            return iter(shuffled(list(real_iglob(*a, **k))))
+
+        self._patch(os, "listdir", listdir)
+        self._patch(_glob, "glob", glob_)
+        self._patch(_glob, "iglob", iglob_)
+        return self
+
+    def __exit__(self, *exc):
+        for obj, name, orig in reversed(self._saved):
+            setattr(obj, name, orig)
+        self._saved = []
+        return False
+
+
 def global_state_digest():
     st = np.random.get_state()
     return h64(st[0], st[1].tobytes(), st[2], st[3], st[4], repr(random.getstate()))
